@@ -308,6 +308,7 @@ let jsstmt_case ?(print = false) ?(readback = false) fn sx =
     let t = PrintGen.coq_T_gen and ef = nat_of_int 200 in
     let o = StmtModel.optimize_body t (fn = "1") l in
     if not (StmtParse.printable_list t ef o) then "not-printable"
+    else if not (StmtParse.else_safe_list t o) then "not-else-safe"
     else match StmtParse.parse_program (StmtPrint.print_list t ef o) with
       | None -> "parse-fails"
       | Some p -> if p = StmtParse.canon_list t ef o then "ok" else "other-tree"
@@ -393,6 +394,14 @@ let register (reg : string -> (string list -> string) -> unit) =
   reg "jsprint" (function [sx] -> jsprint_case_gen false sx | _ -> "BADARGS");
   reg "jsrw" (function [sx] -> jsprint_case_gen true sx | _ -> "BADARGS");
   reg "jsstmt" (function [fn; sx] -> jsstmt_case fn sx | _ -> "BADARGS");
+  reg "jsnum" (function [kind; lit] ->
+      let b = hexd lit in
+      hexe (match kind with
+        | "binary" -> NumLit.binary_number b
+        | "octal" -> NumLit.octal_number b
+        | "hexadecimal" -> NumLit.hexadecimal_number b
+        | _ -> NumLit.decimal_number b)
+    | _ -> "BADARGS");
   reg "jsstmtr" (function [sx] -> jsstmt_case ~readback:true "1" sx | _ -> "BADARGS");
   reg "jsstmtp" (function [sx] -> jsstmt_case ~print:true "1" sx | _ -> "BADARGS");
   reg "jsrw0" (function [sx] -> jsprint_case_gen ~top:PrintModel.coq_OpExpr true sx | _ -> "BADARGS");
